@@ -8,6 +8,28 @@ ALL = [f"C{i:02d}" for i in range(1, 21)]
 
 # id -> (technique, level text, level note, design ref)
 CHECKS = {
+    "C13": (
+        "explicit-state breadth-first search over interleaved event histories on two custom registries and the default "
+        "registry, executed on the real code (world reset + replay per state, canonical state digest), with a per-registry "
+        "reference table as oracle and invariants evaluated in every reached state",
+        "Registry 1 (created plain; also from a caller-owned table and with unit_system='cgs' in thorough) is born with one user "
+        "symbol; registry 2 is created during the history by every route that yields an independent registry (fresh, fresh "
+        "table, from_json(to_json), unpickling, deepcopy of the registry, deepcopy of a Unit, deepcopy of a quantity, "
+        "Unit.copy(deep=True)). Events: add / modify / remove of a user symbol and re-definition of a built-in symbol in either "
+        "registry, construction of prefixed and compound units, arithmetic inside one registry, UnitSystem creation and "
+        "add_symbols/add_constants namespaces bound to a registry, mixed operations between the registries and with the default "
+        "registry, pickle round trips, modify/remove on the default registry. All histories up to depth 3 with <= 2 edits "
+        "(quick) / depth 4 with <= 3 edits (thorough) are explored with canonical-state merging. In EVERY state: each "
+        "registry resolves 10 probe strings as its own reference table says (edited only by events addressed to it); the "
+        "default table, the unyt namespace sample and built-in conversions are pristine and user symbols are unknown there; "
+        "default modify/remove refused; arithmetic and in_base (mks, cgs, a unit system bound to the OTHER registry) done "
+        "inside one registry convert back by name with that registry's definitions; mixed sums and quantity*Unit products "
+        "follow the left operand's registry and write to neither table.",
+        "Staleness of a registry's own memo after its own edits (or inherited by a copy from its source's history before the "
+        "copy) is C12's property: such answers are attributed there and counted. Whether a copy carries user content "
+        "faithfully is C11's: a derived registry's reference table is read off it at birth.",
+        "DESIGN.md section 6 C13",
+    ),
     "C10": (
         "exhaustive product enumeration unit system x unit x entry point on the real code with an oracle typed from the "
         "statement, plus explicit-state BFS over histories of conversions / dimension requests / declarations per unit system "
